@@ -335,24 +335,131 @@ func ruleJSON3(c *Ctx) {
 		}
 		return true
 	})
-	if !strings.Contains(arms["110"], "UndefinedValue") {
-		probs = append(probs, "`null` does not decode to undefined")
-	}
-	if !(strings.Contains(arms["116"], "TrueValue") && strings.Contains(arms["116"], "FalseValue")) {
-		probs = append(probs, "`true`/`false` do not decode to the boolean singletons")
+	// the literal's first byte selects the value: evaluate the switch for
+	// 'n', 't' and 'f' (shape-independent: `case 't', 'f'` with an inner test
+	// of the byte and separate `case 't'` / `case 'f'` arms are the same)
+	for _, wnt := range []struct {
+		b    int64
+		name string
+		what string
+	}{{'n', "UndefinedValue", "`null` does not decode to undefined"}, {'t', "TrueValue", "`true` does not decode to the true singleton"}, {'f', "FalseValue", "`false` does not decode to the false singleton"}} {
+		if got := literalResult(w, p, lit, wnt.b); got != wnt.name {
+			probs = append(probs, fmt.Sprintf("%s (first byte %q yields %s)", wnt.what, rune(wnt.b), got))
+		}
 	}
 	if !strings.Contains(arms["34"], "String") {
 		probs = append(probs, "string literals do not decode to String")
 	}
-	// true vs false chosen by the first byte
-	tf := containsNode(lit.Body, func(n ast.Node) bool {
-		is, ok := n.(*ast.IfStmt)
-		return ok && strings.Contains(w.Src(is.Cond), "== 't'") && strings.Contains(w.Src(is.Body), "TrueValue")
-	})
-	if !tf {
-		probs = append(probs, "`t…` is not mapped to true")
-	}
 	c.check(len(probs) == 0, "literal/typing", lit, "null→undefined, t/f→true/false, \"→String, number→Float iff flagged else Int (base 10, 64 bit)", strings.Join(probs, "; "))
+}
+
+// literalResult evaluates decodeState.literal's switch on the first byte for
+// one concrete byte and returns the name of the object it returns ("?" when
+// the shape is not understood).
+func literalResult(w *World, p *packages.Package, lit *ast.FuncDecl, b int64) string {
+	var sw *ast.SwitchStmt
+	ast.Inspect(lit.Body, func(n ast.Node) bool {
+		if x, ok := n.(*ast.SwitchStmt); ok && sw == nil {
+			sw = x
+		}
+		return true
+	})
+	if sw == nil {
+		return "?"
+	}
+	var clause *ast.CaseClause
+	for _, cs := range sw.Body.List {
+		cc := cs.(*ast.CaseClause)
+		for _, e := range cc.List {
+			if k, ok := ConstInt(p, e); ok && k == b {
+				clause = cc
+			}
+		}
+	}
+	if clause == nil {
+		return "no-arm"
+	}
+	var evalCond func(e ast.Expr) (bool, bool)
+	evalCond = func(e ast.Expr) (bool, bool) {
+		switch x := ast.Unparen(e).(type) {
+		case *ast.BinaryExpr:
+			switch x.Op {
+			case token.EQL, token.NEQ:
+				k, ok := ConstInt(p, x.Y)
+				other := x.X
+				if !ok {
+					k, ok = ConstInt(p, x.X)
+					other = x.Y
+				}
+				if _, isId := ast.Unparen(other).(*ast.Ident); !ok || !isId {
+					if _, isIdx := ast.Unparen(other).(*ast.IndexExpr); !ok || !isIdx {
+						return false, false
+					}
+				}
+				return (k == b) == (x.Op == token.EQL), true
+			case token.LAND, token.LOR:
+				l, ok1 := evalCond(x.X)
+				r, ok2 := evalCond(x.Y)
+				if !ok1 || !ok2 {
+					return false, false
+				}
+				if x.Op == token.LAND {
+					return l && r, true
+				}
+				return l || r, true
+			}
+		case *ast.UnaryExpr:
+			if x.Op == token.NOT {
+				v, ok := evalCond(x.X)
+				return !v, ok
+			}
+		}
+		return false, false
+	}
+	var run func(list []ast.Stmt) string
+	run = func(list []ast.Stmt) string {
+		for _, s := range list {
+			switch x := s.(type) {
+			case *ast.ReturnStmt:
+				if len(x.Results) == 0 {
+					return "?"
+				}
+				if o := ObjOf(p, x.Results[0]); o != nil {
+					return o.Name()
+				}
+				return "?"
+			case *ast.IfStmt:
+				v, ok := evalCond(x.Cond)
+				if !ok {
+					return "?"
+				}
+				if v {
+					if r := run(x.Body.List); r != "" {
+						return r
+					}
+				} else if x.Else != nil {
+					var r string
+					if blk, ok := x.Else.(*ast.BlockStmt); ok {
+						r = run(blk.List)
+					} else {
+						r = run([]ast.Stmt{x.Else})
+					}
+					if r != "" {
+						return r
+					}
+				}
+			case *ast.BlockStmt:
+				if r := run(x.List); r != "" {
+					return r
+				}
+			}
+		}
+		return ""
+	}
+	if r := run(clause.Body); r != "" {
+		return r
+	}
+	return "falls-through"
 }
 
 // escape table of a string-unquoting function: escape char -> replacement
